@@ -17,12 +17,12 @@ func init() {
 		Meta: report.Meta{
 			Property: "C03",
 			Rule: "I: every initial store (v in {none, number, boolean, string} x w in {none, number, string}) x every statement (set/declare x {$v,$w} x {=,+=,-=,*=,/=,%=} x right-hand sides {2, 0, true, \"a\", other variable, unknown variable, ill-typed expression}) x every single host write before it; " +
-				"H: every history of <=3 (quick) / 4 (thorough) statements over a reduced alphabet plus reads, with up to 1 (quick) / 2 (thorough) host writes between steps; L: every compound assignment executed repeatedly in a jump loop; L2: every assignment of a compound expression (<=2 arithmetic operators, negation) over {$v,$w,1,2} executed three times in a jump loop with up to 2 host writes between steps; strings containing % among the stored and appended values; " +
-				"each on a harness-implemented recording storer and on a recording wrapper around the library's in-memory storer; after every Next: GetValues and GetValue of every name against the model store, one type per name, and every successful assignment reached the host's storer; non-trivial = every case (each runs at least one assignment)",
+				"H: every history of <=3 (quick) / 4 (thorough) statements over a reduced alphabet plus reads, with up to 1 (quick) / 2 (thorough) host writes between steps; L: every compound assignment executed repeatedly in a jump loop; SNAP: save / restore histories (the exploration of C07, first two scripts, small bounds) with one host write before the save point; L2: every assignment of a compound expression (<=2 arithmetic operators, negation) over {$v,$w,1,2} executed three times in a jump loop with up to 2 host writes between steps; strings containing % among the stored and appended values; " +
+				"each on a harness-implemented recording storer, on a recording wrapper around the library's in-memory storer and on a harness storer that hands out the very boxed values it keeps; after every Next: GetValues and GetValue of every name against the model store, one type per name, and every successful assignment reached the host's storer; non-trivial = every case (each runs at least one assignment)",
 			StatesMean:  "(history, trace prefix) pairs; transitions = real Next calls and host writes",
 			Assumptions: []string{"small-scope hypothesis", "histories are compared up to the first failing statement (what follows an error is not fixed by the property)"},
 		},
-		QuickBudget: 70 * time.Second, ThoroughBudget: 14 * time.Minute, CrashIsViolation: true,
+		QuickBudget: 120 * time.Second, ThoroughBudget: 14 * time.Minute, CrashIsViolation: true,
 		Run: runC03,
 	})
 }
@@ -99,6 +99,45 @@ func (s *wrapStorer) hostWrite(n string, v yc.Value) {
 }
 func (s *wrapStorer) callLog() []string { return s.calls }
 
+// boxStorer is a host storer that keeps one boxed value per name and hands out that very box on every read (a
+// legal implementation of the interface: the library has no business writing through what GetValue returns).
+type boxStorer struct {
+	vals  map[string]*variable.Value
+	calls []string
+}
+
+func newBoxStorer() *boxStorer { return &boxStorer{vals: map[string]*variable.Value{}} }
+func (s *boxStorer) GetValue(n string) (*variable.Value, bool) {
+	v, ok := s.vals[n]
+	return v, ok
+}
+func (s *boxStorer) GetValues() map[string]variable.Value {
+	out := map[string]variable.Value{}
+	for k, v := range s.vals {
+		out[k] = *v
+	}
+	return out
+}
+func (s *boxStorer) Contains(n string) bool { _, ok := s.vals[n]; return ok }
+func (s *boxStorer) SetNumberValue(n string, v float64) {
+	s.calls = append(s.calls, "set "+n+"="+yc.Num(v).String())
+	s.vals[n] = variable.NewNumber(v)
+}
+func (s *boxStorer) SetBooleanValue(n string, v bool) {
+	s.calls = append(s.calls, "set "+n+"="+yc.Bool(v).String())
+	s.vals[n] = variable.NewBoolean(v)
+}
+func (s *boxStorer) SetStringValue(n string, v string) {
+	s.calls = append(s.calls, "set "+n+"="+yc.Str(v).String())
+	s.vals[n] = variable.NewString(v)
+}
+func (s *boxStorer) Clear() {
+	s.calls = append(s.calls, "clear")
+	s.vals = map[string]*variable.Value{}
+}
+func (s *boxStorer) hostWrite(n string, v yc.Value) { s.vals[n] = yc.ToVar(v) }
+func (s *boxStorer) callLog() []string              { return s.calls }
+
 type loggingStorer interface {
 	variable.Storer
 	hostWrite(n string, v yc.Value)
@@ -112,10 +151,13 @@ func c03Walk(ctx *report.Ctx, c *explore.Chooser, partName string, p *yc.Program
 	initCalls := 0
 	wo := yc.WalkOpts{MaxSteps: 16, MaxJumps: maxJumps, CompareStore: true, StrictErrors: true, DevBudget: devBudget,
 		NewStorer: func() variable.Storer {
-			if storerKind == 0 {
+			switch storerKind {
+			case 0:
 				cur = newRecStorer()
-			} else {
+			case 1:
 				cur = newWrapStorer()
+			default:
+				cur = newBoxStorer()
 			}
 			initCalls = -1
 			return cur
@@ -163,7 +205,7 @@ func c03Walk(ctx *report.Ctx, c *explore.Chooser, partName string, p *yc.Program
 		}
 	}
 	hs := &yc.HostSpec{Vars: init}
-	walkProgram(ctx, c, partName, p, hs, wo, nil, "initial store {"+initString(init)+"}", []string{"harness storer", "wrapped InMemoryStorer"}[storerKind])
+	walkProgram(ctx, c, partName, p, hs, wo, nil, "initial store {"+initString(init)+"}", []string{"harness storer", "wrapped InMemoryStorer", "harness storer handing out its own boxed values"}[storerKind])
 }
 
 func initString(init map[string]yc.Value) string {
@@ -214,7 +256,7 @@ func runC03(ctx *report.Ctx) {
 		} else {
 			st = yc.Set(name, allOps[k], e)
 		}
-		kind := c.Choose(2, "storer")
+		kind := c.Choose(3, "storer")
 		if !c.Mine() {
 			return
 		}
@@ -247,7 +289,7 @@ func runC03(ctx *report.Ctx) {
 			body = append(body, yc.Line(fmt.Sprintf("L%d", i+1)))
 		}
 		body = append(body, readLine("v"), readLine("w"))
-		kind := c.Choose(2, "storer")
+		kind := c.Choose(3, "storer")
 		if !c.Mine() {
 			return
 		}
@@ -277,7 +319,7 @@ func runC03(ctx *report.Ctx) {
 				e = yc.EBinary(arith[c.Choose(3, "op1")], atom(), atom())
 			}
 			op := []string{"=", "+="}[c.Choose(2, "op")]
-			kind := c.Choose(2, "storer")
+			kind := c.Choose(3, "storer")
 			if !c.Mine() {
 				return
 			}
@@ -289,6 +331,12 @@ func runC03(ctx *report.Ctx) {
 		})
 	}
 
+	// SNAP: a value the host wrote into its storer is the variable's value like any assigned one - also across a node
+	// entry followed by Snapshot / RestoreAt (the checkpoint of the variables is taken from the storer, not from the
+	// runner's own record of assignments): the save / restore exploration of C07 on its first two scripts, small
+	// bounds, with one host write between two steps before the save point
+	restoreExplore(ctx, "SNAP", c07Scripts(true)[3:5], c07Host, c07Bounds{pre: report.Pick(ctx, 3, 5), mid: 0, recv: 0, cont: 2})
+
 	// L: the same assignment statement executed several times (loop through a jump)
 	rounds := report.Pick(ctx, 4, 6)
 	part(ctx, "L", 0, func(c *explore.Chooser) {
@@ -298,7 +346,7 @@ func runC03(ctx *report.Ctx) {
 		rhs := []*yc.Expr{yc.ENumber(2), yc.ENumber(1), yc.ENumber(0.5), yc.EString("a"), yc.EVariable("v"), yc.EBinary("+", yc.ENumber(1), yc.ENumber(1)), yc.EString("%v")}
 		e := rhs[c.Choose(len(rhs), "rhs")]
 		viaDeclare := c.Choose(2, "declare-first") == 1
-		kind := c.Choose(2, "storer")
+		kind := c.Choose(3, "storer")
 		if !c.Mine() {
 			return
 		}
